@@ -239,6 +239,70 @@ fn kd10_params_tune() {
 
 fn stub_slide_hash_nop(_s: &mut State) {}
 
+/// marks the call in a field nothing else in `params` touches
+fn stub_slide_hash_counted(s: &mut State) {
+    s.ins_h += 1;
+}
+
+/// Leaving level 0: deflate_stored does not maintain the hash table and records in `matches` what it owes — one slide (1)
+/// or a full clear (2).  deflateParams settles the debt before a match finder reads the table again; at every other level
+/// change, and when the level stays 0, the table and the counter are left alone.  (First call after init/reset, so no flush
+/// precedes the switch.)
+#[kani::proof]
+#[kani::unwind(12)]
+#[kani::stub(core::fmt::write, stub_fmt_write)]
+#[kani::stub(core::panicking::panic_nounwind, stub_pn)]
+#[kani::stub(core::panicking::panic_nounwind_fmt, stub_pnf)]
+#[kani::stub(<[u16]>::fill, stub_fill_zero)]
+#[kani::stub(crate::deflate::slide_hash::slide_hash, stub_slide_hash_counted)]
+fn kd10_params_leaving_level0_settles_the_hash_debt() {
+    let mut w = [0u8; 2 << WB];
+    let mut p = [0u16; 1 << WB];
+    let mut h = [0u16; HASH_SIZE];
+    let mut pe = [MaybeUninit::new(0u8); 4 * LB];
+    let mut sy = [0u8; 3 * LB];
+    let level0: i8 = kani::any();
+    kani::assume(level0 >= 0 && level0 <= 9);
+    let mut state = typed_state(&mut w, &mut p, &mut h, &mut pe, &mut sy, WB, LB, level0, 0, Strategy::Default);
+    state.window_size = 2 << WB;
+    state.last_flush = -2;
+    let matches0: u8 = kani::any();
+    kani::assume(matches0 <= 2);
+    state.matches = matches0;
+    state.status = Status::Busy;
+    let dirty: usize = 0x1234;
+    let dirty_val: u16 = kani::any();
+    kani::assume(dirty_val != 0);
+    state.head.as_mut_slice()[dirty] = dirty_val;
+    state.ins_h = 0;
+    let mut stream = typed_stream(unsafe { &mut *(&mut state as *mut State) });
+    let mut o = [0u8; 4];
+    stream.next_out = o.as_mut_ptr();
+    stream.avail_out = 4;
+    let level: i32 = kani::any();
+    kani::assume(level >= 0 && level <= 9);
+    let rc = params(&mut stream, level, Strategy::Default);
+    assert!(rc != ReturnCode::BufError, "not BufError");
+    assert!(rc != ReturnCode::StreamError, "not StreamError");
+    assert!(rc == ReturnCode::Ok, "rc ok");
+    assert!(stream.state.level as i32 == level, "level installed");
+    let slid = stream.state.ins_h as u32;
+    if level0 == 0 && level != 0 && matches0 != 0 {
+        assert!(stream.state.matches == 0, "the deferred hash maintenance is done when level 0 is left");
+        assert!(matches0 != 2 || stream.state.head.as_slice()[dirty] == 0, "stale positions are cleared");
+        assert!(slid == (matches0 == 1) as u32);
+    } else {
+        assert!(stream.state.matches == matches0, "no debt is settled (or forgotten) otherwise");
+        assert!(stream.state.head.as_slice()[dirty] == dirty_val);
+        assert!(slid == 0);
+    }
+    kani::cover!(level0 == 0 && level == 7 && matches0 == 2);
+    kani::cover!(level0 == 0 && level == 1 && matches0 == 1);
+    kani::cover!(level0 == 3 && level == 0);
+    core::mem::forget(stream);
+    core::mem::forget(state);
+}
+
 /// set_header: only for gzip streams
 #[kani::proof]
 #[kani::unwind(4)]
